@@ -11,9 +11,10 @@ PENDING_REASON = "check not built yet in this commit (work in progress; see DESI
 def main():
     ids = [json.loads(l)["id"] for l in open(os.path.join(HERE, "properties.jsonl")) if l.strip()]
     checks, na, engines = [], [], {}
+    claimed = set(open(os.path.join(HERE, "claimed.txt")).read().split())
     for pid in ids:
         p = os.path.join(HERE, "props", pid.lower() + ".py")
-        if not os.path.exists(p):
+        if not os.path.exists(p) or pid not in claimed:
             na.append({"property_id": pid, "reason": PENDING_REASON})
             continue
         m = importlib.import_module("props." + pid.lower())
